@@ -134,6 +134,21 @@ PROPS = {
         "technique": "online assertion + paired-execution comparator",
         "jobs": [{"pkg": "motion", "test": "TestVerif_C09", "shards": (16, 16), "timeout": (300, 2400), "require": ["history_pairs", "suppressed_window_frames", "motion_frames_after_period", "pairs_with_reset", "pairs_with_ffc"]}],
     },
+    "C10": {
+        "title": "Only complete recordings ever bear the .cptv name; crashes leave no debris",
+        "level": "fault_enumeration",
+        "rule": "Scenarios through the real handleConn + CPTVFileRecorder in a child process (test binary re-executed): S1 one motion recording, S2 two back-to-back, S3 throttle cut, S4 test recording overlapping a motion recording, "
+                "S5 constant recorder on, S6 connection dropped in mid-frame (Stop path), S7 'clear' in mid-recording, S8 test recording and motion recording starting on the same frame (quick: S1,S3,S4,S5,S6,S8). "
+                "An uncrashed run counts the file-recorder hook hits H (after create, after header, before/after each frame write, before Close, between Close and rename, after rename, abort path); then for EVERY n in 0..H the child SIGKILLs itself at hit n. "
+                "Oracles: I1 - every *.cptv decodes header to EOF with the stock reader, checked synchronously at every hook inside the child, by a free-running observer goroutine, and by the parent on the directory as found; "
+                "I2 - after the repository's deleteTempFiles the output directory (incl. constant-recordings/) holds complete recordings only, and none was removed. Each (scenario, n) is a case.",
+        "assumptions": COMMON_ASSUME + ["process kill only; power-loss durability is not claimed by the property", "crash points inside go-cptv's Close lie between two hooks and are covered only by the free-running observer / random kills",
+                                        "'the daemon calls the clean-up at start-up' is visible in runMain but only executed by the optional daemon tier"],
+        "level_text": "Fault enumeration over every hook-indexed crash point of each scenario, with a directory scanner + full decode as the oracle before and after the start-up clean-up.",
+        "level_note": "Frames of recordings started in different frames are paced >= 2 ms apart as a real camera does (file names have millisecond resolution); S8 is the one same-frame collision production can produce.",
+        "technique": "crash-point enumeration with self-SIGKILL at hooks + directory/decoder oracle",
+        "jobs": [{"pkg": "recorder-main", "test": "TestVerif_C10", "shards": (16, 16), "timeout": (600, 3000), "require": ["crash_points", "complete_recordings_seen", "hook_scans_in_children"]}],
+    },
     "C11": {
         "title": "Finished files decode to exactly the recorded frames, metadata and settings",
         "level": "exploration",
